@@ -10,6 +10,13 @@ NOTE = ('Trusted: clang 14 front end (AST, constant evaluator, CFG), the bsfacts
         '+ the witnesses under /verif/witness. Only the structural clauses named in the level text are decided, never value-level equality.')
 
 CLAIMED = {
+    'C01': ('other',
+            'Round-trip equality over all values is not decided. Decided are necessary structural clauses: value-preserving conversions on every '
+            'save path of every archive scope; one common entry-point protocol (context, archive, serialize, Finalize) in all LoadObject/SaveObject '
+            'overloads; XML node shapes emitted by the save side are accepted by the load side (childless element = empty value; recorded known '
+            'findings); MsgPack writer-emits subset-of reader-accepts over the decision tables of both codecs; JSON rendering result consumed and '
+            'stream source encoding named.',
+            'cast-kind audit on the typed AST + call protocol rule + writer/reader decision-table inclusion (abstract interpretation)', '§5 C01'),
     'C02': ('other',
             'Structural necessary conditions of "no input can crash or exhaust the loader": no escape to std::terminate on load paths, no '
             'input-driven recursion, no unclamped header-declared pre-sizing, every read of the MsgPack input buffer covered by a bounds guard '
@@ -44,6 +51,11 @@ CLAIMED = {
             'MessagePack specification: accept sets, length-field and payload widths, signedness, embedded values, ext type-byte offsets, '
             'classification table, and skip extents for every first byte. Exhaustive over the first-byte domain; payload VALUES are not decided.',
             'decision tables by abstract interpretation over a finite exact domain, compared with a hand-written spec oracle', '§5 C07'),
+    'C08': ('other',
+            'Conformance of the emitted text is delegated to rapidjson/pugixml; decided are the adapter obligations around them: Accept() result '
+            'consumed, ParseStream source encoding, UtfType-to-backend maps, encoding/BOM/format options reaching the renderers, XML input '
+            'encoding handling. Equality of the recovered data model under re-rendering is not decided.',
+            'result-consumption and argument-flow rules over the typed AST, switch tables', '§5 C08'),
     'C09': ('other',
             'Symbolic linear evaluation of every view built from a CSV cell descriptor (exactly [Offset, Offset+Size) in all four ReadValue '
             'bodies), abstract interpretation of the field-quoting decision over all byte values x separators, presence of the row-width check '
